@@ -221,6 +221,18 @@ def scenario(sh: Shard, seed, idx, action, t_crash, shape, regime, suspend):
         wit["pump_interleaved_reset"] = bool(mech)
         for key, what in out["problems"]:
             sh.violation(key + mech, what, wit)
+        # every reset of the scenario - the automatic ones after a ping comes back included -, however it
+        # ended: the connection endpoints that were open when it started are closed when it is over
+        for x in mw.api:
+            if x["api"] != "async_reset" or x.get("t1") is None:
+                continue
+            sh.count("resets_checked_for_endpoints")
+            if x.get("task") and not str(x["task"]).startswith("Task-"):
+                sh.count("automatic_resets_checked_for_endpoints")
+            left = [tr for tr in x.get("conn_endpoints_before", []) if tr.closed_at is None or tr.closed_at > x["t1"] + 0.5]
+            if left:
+                m2 = ":pump-interleaved-reset" if pump_inside(x) else ""
+                sh.violation("C10:reset:connection-endpoint-open" + m2, f"{len(left)} connection endpoint(s) open when async_reset (task {x.get('task')}, ended with {x.get('exc')}) started were still open 0.5 s after it was over", dict(wit, reset_task=x.get("task"), reset_exc=x.get("exc")))
         late = wat.late_calls()
         if late:
             sh.violation("C10:late-observer-call" + mech, f"{len(late)} client observer call(s) after the teardown returned, e.g. {late[0][2]} at +{late[0][0] - wat.retired_at[late[0][1]]:.2f}s", dict(wit, calls=[(round(t, 2), g, w_) for t, g, w_ in late[:5]]))
@@ -338,6 +350,13 @@ def main(tier, seed):
                 for t in ts:
                     cases.append({"idx": idx, "action": action, "t": t, "shape": shape, "regime": regime, "suspend": "tick" if idx % 2 else "none"})
                     idx += 1
+            # after the outage is over: the automatic reset (ping received in an error state, made from
+            # inside the connection's own ping-loop task) has happened before the action
+            for shape, ts in (("outage", (380.0, 450.0)), ("rferr", (200.0, 260.0))):
+                for t in ts:
+                    for suspend in ("none", "tick", "seconds"):
+                        cases.append({"idx": idx, "action": action, "t": t, "shape": shape, "regime": regime, "suspend": suspend})
+                        idx += 1
     for action in ("reset", "exit"):
         for regime in regimes:
             for k in (1, 2):
